@@ -6,10 +6,10 @@
 static unsigned long long n_sizes = 0, n_good = 0, n_malloc = 0, n_slice = 0, n_div = 0, n_util = 0, n_addr = 0, n_pages = 0, n_slice_positions = 0, n_interior = 0, n_bins_addr = 0, n_giant = 0, n_giant_skipped = 0;
 static int full = 0, padding = 0;
 
-static unsigned long long n_page_ends = 0;
+static unsigned long long n_page_ends = 0, n_huge_align = 0;
 static void body(FILE* f) {
-  fprintf(f, "\"arith\":{\"sizes\":%llu,\"good_size\":%llu,\"malloc_checked\":%llu,\"slice_counts\":%llu,\"divisions\":%llu,\"util_inputs\":%llu,\"address_recoveries\":%llu,\"pages\":%llu,\"distinct_slice_positions\":%llu,\"interior_offsets\":%llu,\"bins_with_real_pages\":%llu,\"giant_blocks_checked\":%llu,\"giant_blocks_refused_by_the_os\":%llu,\"page_ends_checked\":%llu,\"full\":%d}",
-          n_sizes, n_good, n_malloc, n_slice, n_div, n_util, n_addr, n_pages, n_slice_positions, n_interior, n_bins_addr, n_giant, n_giant_skipped, n_page_ends, full);
+  fprintf(f, "\"arith\":{\"sizes\":%llu,\"good_size\":%llu,\"malloc_checked\":%llu,\"slice_counts\":%llu,\"divisions\":%llu,\"util_inputs\":%llu,\"address_recoveries\":%llu,\"pages\":%llu,\"distinct_slice_positions\":%llu,\"interior_offsets\":%llu,\"bins_with_real_pages\":%llu,\"giant_blocks_checked\":%llu,\"giant_blocks_refused_by_the_os\":%llu,\"page_ends_checked\":%llu,\"huge_alignments_checked\":%llu,\"full\":%d}",
+          n_sizes, n_good, n_malloc, n_slice, n_div, n_util, n_addr, n_pages, n_slice_positions, n_interior, n_bins_addr, n_giant, n_giant_skipped, n_page_ends, n_huge_align, full);
 }
 #define FAIL(...) vf_trip("arith", "C16", __VA_ARGS__)
 
@@ -252,6 +252,24 @@ static void check_addresses(void) {
     n_addr++;
     if ((uint8_t*)b > (uint8_t*)p || (uint8_t*)p + n > (uint8_t*)b + bs || ((uint8_t*)b - page->page_start) % bs != 0) FAIL("aligned pointer %p (n=%zu, a=%zu) resolves to block %p of size %zu", p, n, a, (void*)b, bs);
     mi_free(p);
+  }
+  // alignments above MI_BLOCK_ALIGNMENT_MAX: the block lives in a huge page of its own whose single block spans the whole over-allocated area
+  {
+    static const size_t ns[] = { 1, 1024, 4096, 8192, 12288, 20480, 65536, 100000, 1 << 20, 5 << 20, (17 << 20) + 5 };
+    for (size_t a = 2 * MI_BLOCK_ALIGNMENT_MAX; a <= 8 * MI_BLOCK_ALIGNMENT_MAX; a *= 2) for (size_t i = 0; i < sizeof(ns) / sizeof(ns[0]); i++) {
+      const size_t n = ns[i];
+      uint8_t* p = (uint8_t*)mi_malloc_aligned(n, a); if (p == NULL) FAIL("mi_malloc_aligned(%zu,%zu) failed", n, a);
+      mi_page_t* page = _mi_ptr_page(p);
+      mi_block_t* b = _mi_page_ptr_unalign(page, p);
+      const size_t bs = mi_page_block_size(page);
+      n_addr++; n_huge_align++;
+      if (((uintptr_t)p & (a - 1)) != 0) FAIL("mi_malloc_aligned(%zu,%zu) returned %p", n, a, (void*)p);
+      if ((uint8_t*)b > p || p + n > (uint8_t*)b + bs || (uint8_t*)b != page->page_start) FAIL("pointer %p (n=%zu, alignment %zu) resolves to block %p of size %zu (page start %p)", (void*)p, n, a, (void*)b, bs, (void*)page->page_start);
+      const size_t u = mi_usable_size(p);
+      if (u < n || p + u > (uint8_t*)b + bs) FAIL("mi_usable_size(%p) = %zu for %zu bytes with alignment %zu (block %p, size %zu)", (void*)p, u, n, a, (void*)b, bs);
+      p[0] = 1; p[n - 1] = 2; p[u - 1] = 3;
+      mi_free(p);
+    }
   }
   for (size_t i = 0; i < nh; i++) mi_free(hold[i]);
   free(hold);
